@@ -28,7 +28,7 @@ PosInClass(F, r) == LET I == Insts(F)[InstChunkOfRef(F, r)] IN CHOOSE k \in 1..I
 
 FProps(F, dialect) ==
     [i \in ChunkIdx(F, "PROP") |->
-        LET cid == U32LE(Data(F, i), 1) IN
+        LET cid == Id32LE(Data(F, i), 1) IN
         IF HasClassId(F, cid) THEN DecodeProp(dialect, Data(F, i), Insts(F)[InstOfClassId(F, cid)].n)
         ELSE [class |-> cid, name |-> <<>>, present |-> FALSE, orphan |-> TRUE]]
 
